@@ -70,6 +70,17 @@ func runStop(p stParams) func(rc *core.RunCtx) {
 		// crashes only on childless actors: a restarted parent re-creates stopped
 		// children, which would blur who is "the" actor behind an id
 		crashAllowed := p.focus == "C07" && maxDepth == 0 && g.Bool(0.6)
+		if crashAllowed && g.Bool(0.4) {
+			// a restarted incarnation (reached after a crash on a message, possibly
+			// with a pill in the restart buffer) fails again while starting
+			at := g.Range(1, 2)
+			if g.Bool(0.5) {
+				root.PanicStarted[at] = true
+			} else {
+				root.PanicInit[at] = true
+			}
+			rc.Scen("%s: panicInit=%v panicStarted=%v", root.FullID(), keys(root.PanicInit), keys(root.PanicStarted))
+		}
 
 		// client scripts
 		nclients := 1 + g.Pick(2, 4, 3)
@@ -453,6 +464,11 @@ func stopOracles(rc *core.RunCtx, env *Env, mon *Monitor, all []*Spec, parentOf 
 				}
 				if env.E.Registry.GetPID(kindOf(id), idOf(id)) != nil {
 					rc.Violate2("C08", "child-still-registered/"+feat, "%s is stopped but its child %s is still registered", par, id)
+				}
+				for _, still := range psd.ChildrenStillRegistered {
+					if still == id {
+						rc.Violate2("C08", "child-registered-while-parent-handles-Stopped/"+feat, "when %s handled Stopped its child %s was still in the registry", par, id)
+					}
 				}
 			}
 		}
